@@ -703,6 +703,13 @@ spec fn keeps_all<T>(t0: Seq<TaggedLine<T>>, l0: Seq<TaggedLineElement<T>>, w0: 
 pub uninterp spec fn is_ws(c: char) -> bool;
 #[verifier::external_body] pub proof fn axiom_space_is_ws() ensures is_ws(' ') {}
 #[verifier::external_body] fn char_is_ws(c: char) -> (r: bool) ensures r == is_ws(c) { c.is_whitespace() }
+// std functions that tidy-ups of this code tend to introduce (A3: their std documentation is their specification)
+pub open spec fn trim_end_spec(s: Seq<char>) -> Seq<char> decreases s.len() { if s.len() > 0 && is_ws(s.last()) { trim_end_spec(s.drop_last()) } else { s } }
+pub open spec fn trim_start_spec(s: Seq<char>) -> Seq<char> decreases s.len() { if s.len() > 0 && is_ws(s.first()) { trim_start_spec(s.drop_first()) } else { s } }
+pub assume_specification[ String::with_capacity ](n: usize) -> (r: String) ensures r@ == Seq::<char>::empty();
+pub assume_specification[ str::trim_end ](s: &str) -> (r: &str) ensures r@ == trim_end_spec(s@);
+pub assume_specification[ str::trim_start ](s: &str) -> (r: &str) ensures r@ == trim_start_spec(s@);
+pub assume_specification[ str::trim ](s: &str) -> (r: &str) ensures r@ == trim_end_spec(trim_start_spec(s@));
 // the characters of the input that are kept: everything except white space and characters without a display width (controls)
 spec fn keepc(c: char) -> bool { !is_ws(c) && cw(c).is_some() }
 spec fn kept(s: Seq<char>) -> Seq<char> decreases s.len() { if s.len() == 0 { Seq::empty() } else if keepc(s.last()) { kept(s.drop_last()).push(s.last()) } else { kept(s.drop_last()) } }
@@ -820,6 +827,7 @@ impl<T: Clone + Eq + Debug + Default> WrappedBlock<T> {
 //@item src/render/text_renderer.rs :: impl WrappedBlock :: fn flush_word
 //@sub /-> Result<\(\)>/ ==> -> (r: Result<()>)
 //@auto C01 C02
+    #[verifier::spinoff_prover] //@w
     fn flush_word(&mut self, ws_mode: WhiteSpace) -> (r: Result<()>)
         requires old(self).inv(), tag_ok::<T>(), //@w
             old(self).width >= 1, //@w #width_ge_1
